@@ -124,6 +124,7 @@ def check(run: Run) -> None:
     run.rule("C16.R3", "no match, no write, by abstract runs of init_from_template: with no matching pattern and no explicit template nothing is rendered or written; otherwise the target, and only the target, receives exactly the rendering")
     run.rule("C16.R4", "who may overwrite: only call sites fed by a configuration field pass should_overwrite_existing")
     run.rule("C16.R5", "date-like captures: the recogniser regex and the strptime format of _var_map_value agree on YYYYMMDD")
+    run.rule("C16.R7", "captured variables are written verbatim: no Jinja environment on the template path escapes its output (autoescape off)")
     run.rule("C16.R6", "the rendered template is rebuilt from the matched template on every call (no stale cached copy)")
     # the operation = init_from_template with its private helpers folded back in (extracting `_first_matching_template`
     # or `_render_to_file` changes no behaviour and must not change the verdict)
@@ -271,6 +272,28 @@ def check(run: Run) -> None:
     used = sorted(glob & (names_loaded(fn) | names_loaded(fr.node) | names_loaded(fb.node)))
     run.check("C16.R6", "no module-level cache in the template path", not used, "templates", used[0] if used else "-",
               f"module-level container `{used[0] if used else ''}` is consulted while initialising from a template", file=FILE)
+    # ---- R7: variables are written as captured: the Jinja environment does not escape (library fact: autoescape defaults to off; when on, & < > ' " become HTML entities)
+    envs = []
+    for q in sorted(model.reachable([F_INIT])):
+        f = model.funcs[q]
+        for c in ast.walk(f.node):
+            if isinstance(c, ast.Call) and ast.unparse(c.func).split(".")[-1] in ("Environment", "SandboxedEnvironment", "Template", "NativeEnvironment") and "jinja" in ast.unparse(c.func).lower() + " ".join(f.module.imports.values()).lower():
+                envs.append((f, c))
+    run.floor("Jinja environments on the template path", len(envs), 1)
+    for f, c in envs:
+        ae = kwarg(c, "autoescape")
+        off = ae is None or (isinstance(ae, ast.Constant) and not ae.value)
+        if isinstance(ae, ast.Call) and ast.unparse(ae.func).split(".")[-1] == "select_autoescape":
+            # escapes by template file extension (html / htm / xml unless told otherwise): off for .zot templates unless they are named or `default=True`
+            txt = ast.unparse(ae)
+            dflt = kwarg(ae, "default")
+            off = "zot" not in txt and not (isinstance(dflt, ast.Constant) and dflt.value)
+        elif ae is not None and not isinstance(ae, ast.Constant):
+            run.undecided("C16.R7", f.name, f"autoescape is `{ast.unparse(ae)[:50]}`: not a constant")
+            continue
+        run.check("C16.R7", f"{f.name}: the Jinja environment writes variables verbatim (no autoescape)", off, f.name, c,
+                  f"`{ast.unparse(c)[:80]}` turns on autoescaping: a variable captured from the page path (or a parent page name) that contains & < > ' or \" is written as an HTML entity, "
+                  "so the page is not the rendering with the captured variables", file=f.file, node=c)
     run.units = dict(functions=[F_INIT, F_RENDER, F_BUILD, F_VARVAL], call_sites=len(sites))
     run.assumptions += ["jinja2 renders the file it is given", "Path.exists / write_text semantics"]
 
